@@ -1,5 +1,6 @@
 import M3d.Basic
 import M3d.Model.Sdf
+import M3d.Drv.Kernels
 /-!
 Line-protocol handler for C06 (signed distance fields). Core-only.
 
@@ -222,7 +223,8 @@ def handleExact (kind : String) (ws : List String) : Option String := do
 def handleAll (ws : List String) : Option String :=
   match ws with
   | kind :: rest =>
-      if kind.startsWith "b." then handleBits kind rest
+      if kind == "gk" then M3d.Drv.Kernels.handle rest
+      else if kind.startsWith "b." then handleBits kind rest
       else if kind.startsWith "x." then handleExact kind rest
       else none
   | _ => none
